@@ -30,7 +30,13 @@ def run(tier):
                     if line not in seen:        # drop exact duplicates so that records are distinct cases
                         seen.add(line)
                         g.write(line)
-        files.append(p)
+        # keep every trace file well below 65536 records (TLC's limit on the length of one behaviour)
+        n = sum(1 for _ in open(p))
+        if n > 40000:
+            sub, _ = vlib.split_file(p, (n + 39999) // 40000, w, "shard%02d_" % i)
+            files += sub
+        else:
+            files.append(p)
     res = chk.traces("RayBoxTrace", files, what="lattice sample + constructed grazing rays + extreme direction components; float and double; 3 entry points each", episodes=1, timeout=7200)
     skipped = 0
     for r in res:
